@@ -94,7 +94,6 @@ def read_EMD_v0p1(
             arr = Array(
                 data = data[:],
                 name = emd_group.name.split('/')[-1],
-                units = None,
                 dims = dims,
                 dim_units = dim_units,
                 dim_names = dim_names,
